@@ -1,7 +1,7 @@
 """C01 -- the client view converges to the device's true property state."""
 from pyvc.runner import Check, TaskSpec, run_tasks, PY_FULL
 from contracts import converge as V, driver as D
-from checks import common, c14
+from checks import c04, common, c14
 
 
 def specs(tier):
@@ -28,6 +28,9 @@ def specs(tier):
     for k in D.KINDS:
         for w in ("to_def_message", "to_set_message"):
             out.append(TaskSpec("vector[%s.%s]" % (k, w), "contracts.publish", "task_vector", (k, w), replay_kind="driver.publish"))
+    # (T) delivery inside the router: every device message reaches every registered client the BLOB policy lets it through to, whatever
+    # else that client has sent before (C05's postcondition for any registry and policy table, clauses tagged C01)
+    out += [s for s in c04.router_specs() if s.name.startswith("process_message")]
     return out
 
 
@@ -47,7 +50,7 @@ def run(tier, seed):
     chk.trusted_base += common.ENCODING + [
         "COMPOSITION (induction over the history, argued in DESIGN 4 C01; each step is a discharged obligation or a cited contract): Inv 'mirror == pub(S)' is established by the handshake (C07 "
         "getProperties + lemma def/del) and preserved by every operation: (M) the mutator sends exactly its row of messages after the state change [this check + C14 tasks], (P) message content [C07], "
-        "(T) delivery to every client unchanged and in order [C05, C03, C02, C19], (S) client step [C15: contracts.client.expected], (L) step(pub(S), messages) == pub(S') [lemma tasks here]",
+        "(T) delivery to every client unchanged and in order [router fan-out: C05 obligations re-discharged here; C03, C02, C19 cited], (S) client step [C15: contracts.client.expected], (L) step(pub(S), messages) == pub(S') [lemma tasks here]",
         "the lemma is discharged on the spec functions themselves (the same Python functions the C07/C15 obligations use) for properties of 0..2 (thorough 0..3) elements with every enabled/disabled "
         "pattern, symbolic names, states, labels and values; C07 proves message content for any number of elements, C15 the client step per queried element",
         "Group.enabled: groups of 0..3 properties (the loop body does not depend on the other properties); property kinds cycle through text/number/switch/blob",
